@@ -91,6 +91,19 @@ CHECKS = {
              "groups are executed as subprocesses under all nine designator spellings and the program's sys.argv, exit "
              "status and output are compared with the spec and across modes.",
         note="-i / REPL start-up and hy2py/hyc command lines are not covered; -m needs the module on sys.path (cwd)."),
+    "C15": dict(
+        engine="cache", level="model_checking", design="5.7, 6/C15",
+        technique="TLC checks on HyCache that the source history (compile, then run in the module compilation filled) and "
+                  "the cached history (run only) end in the same values, macro table and reader table for every module of "
+                  "bounded size, and exports the expected final state; every module is imported twice in fresh processes "
+                  "(second import must come from bytecode) and both observations are compared with the spec",
+        text="Modules of up to 2 (thorough 3) forms over setv, defmacro, 13 shapes of require (absolute / relative / "
+             "package name lists, :as, name lists with aliases, *, export lists, :readers, :macros+:readers), macro uses, "
+             "reader-macro uses, local requires in functions and hy.eval; observed: x, y, the values macro uses produced, "
+             "_hy_macros (name -> which macro), _hy_reader_macros.  File kinds: 9 extensions x {Hy-only text, Python-only "
+             "text} through SourceFileLoader and `hy FILE`, against IsHySource with CPython's own SOURCE_SUFFIXES.",
+        note="hy.eval of a macro the module defines only later differs inherently between the histories (the compile-time "
+             "table is still there after a source import); the spec leaves those modules unspecified."),
     "C16": dict(
         engine="macros", level="model_checking", design="5.7, 6/C16",
         technique="TLC enumerates staging programs of HyStaging with the expected number of firings per effect site and "
